@@ -79,7 +79,6 @@ class BaseValidator:
         except TypeError as e:
             raise ValidationError(str(e)) from e
 
-    @ft.lru_cache(None)
     def signature(self, method: MethodType, exclude: Tuple[str, ...]) -> inspect.Signature:
         """
         Returns method signature.
@@ -89,6 +88,15 @@ class BaseValidator:
         :returns: signature
         """
 
+        if inspect.ismethod(method):
+            # bound methods (class based views) are created per request,
+            # caching them would keep the view instances and theirs contexts alive forever
+            return self._signature.__wrapped__(self, method, exclude)
+
+        return self._signature(method, exclude)
+
+    @ft.lru_cache(None)
+    def _signature(self, method: MethodType, exclude: Tuple[str, ...]) -> inspect.Signature:
         signature = inspect.signature(method)
 
         method_parameters: List[inspect.Parameter] = []
